@@ -80,9 +80,13 @@ def judge(entry, res):
         r = res[p]
         engine = [k for k in r["keys"] if "engine-failure" in k]
         if entry["kind"] == "benign":
+            limit = set((entry.get("known_limit") or {}).get(p, []))
             if r["rc"] != 0 or r["keys"]:
-                ok = False
-                msgs.append("%s: FALSE ALARM on benign change: %s" % (p, r["keys"][:5]))
+                if limit and set(r["keys"]) <= limit:
+                    msgs.append("%s: reported (recorded limit of the technique: %d key(s), see DESIGN 9.5)" % (p, len(r["keys"])))
+                else:
+                    ok = False
+                    msgs.append("%s: FALSE ALARM on benign change: %s" % (p, r["keys"][:5]))
             else:
                 msgs.append("%s: silent" % p)
         else:
